@@ -383,6 +383,10 @@ def apply_contract(ip: Interp, con: Contract, fn, args, kwargs, bound_cls) -> SV
     st = ip.st
     node = func_ast(fn)
     locs = ip.bind_args(node, fn, args, kwargs)
+    for k_, v_ in list(locs.items()):
+        if isinstance(v_, SV) and v_.k in ('gen', 'iter'):
+            # a generator handed to a callee under contract: the contract speaks about the sequence it yields
+            locs[k_] = SV('pylist', py=E.PyList(list(ip.segments(v_))))
     ip.shared['contracts_used'].add(con.target)
     # 1. precondition is the caller's obligation
     for name, f in con.requires:
